@@ -27,6 +27,14 @@ pub trait MonItem: TreapItem + TreapItemSized + Sized + Default + Send + 'static
     fn fold(elems: &[Self::Elem]) -> Self::Agg;
     /// a key for "sorted by value" scenarios
     fn key(e: &Self::Elem) -> u64;
+    /// modifications may depend on the position inside the range they were attached to: `apply_elem_at` applies `m` to the
+    /// element at index `idx` of that range, `shift(m, k)` is the same modification seen from `k` positions further right
+    fn apply_elem_at(e: &mut Self::Elem, m: &Self::Mod, _idx: usize) {
+        Self::apply_elem(e, m)
+    }
+    fn shift(m: &Self::Mod, _k: usize) -> Self::Mod {
+        m.clone()
+    }
 }
 
 // ------------------------------------------------------------------------------------------------
@@ -236,5 +244,122 @@ impl MonItem for WordItem {
     }
     fn key(e: &u8) -> u64 {
         *e as u64
+    }
+}
+
+// ------------------------------------------------------------------------------------------------
+// ProgItem: "add the arithmetic progression a + b*i to the i-th element of the range" - a lazy modification that treats the
+// two children differently (the right child receives the progression advanced by the size of the left subtree + 1), sums
+// as aggregates. The item remembers the size of its left subtree from its last `update`.
+
+#[derive(Default)]
+pub struct ProgItem {
+    pub id: u32,
+    pub val: u64,
+    pub sum: u64,
+    pub size: usize,
+    pub lsize: usize,
+    pub pend: Option<(u64, u64)>,
+}
+
+fn prog_total(m: &(u64, u64), size: usize) -> u64 {
+    let n = size as u64 % PM;
+    // a*n + b*n(n-1)/2 mod PM
+    let tri = (size as u128 * (size as u128).saturating_sub(1) / 2 % PM as u128) as u64;
+    (m.0 * n + m.1 * tri) % PM
+}
+
+impl TreapItem for ProgItem {
+    fn update(&mut self, left: Option<&Self>, right: Option<&Self>) {
+        self.lsize = left.map(|x| x.size).unwrap_or(0);
+        self.size = 1 + self.lsize + right.map(|x| x.size).unwrap_or(0);
+        self.sum = (self.val + left.map(|x| x.sum).unwrap_or(0) + right.map(|x| x.sum).unwrap_or(0)) % PM;
+    }
+    fn push(&mut self, left: Option<&mut Self>, right: Option<&mut Self>) {
+        if let Some(m) = self.pend.take() {
+            if let Some(l) = left {
+                l.attach(&m);
+            }
+            if let Some(r) = right {
+                r.attach(&Self::shift(&m, self.lsize + 1));
+            }
+        }
+    }
+}
+
+impl TreapItemSized for ProgItem {
+    fn size(&self) -> usize {
+        self.size
+    }
+}
+
+impl MonItem for ProgItem {
+    type Elem = u64;
+    type Mod = (u64, u64);
+    type Agg = (u64, usize);
+    fn name() -> &'static str {
+        "ProgItem"
+    }
+    fn make(id: u32, e: &u64) -> Self {
+        ProgItem { id, val: *e, sum: *e, size: 1, lsize: 0, pend: None }
+    }
+    fn id(&self) -> u32 {
+        self.id
+    }
+    fn elem(&self) -> u64 {
+        self.val
+    }
+    fn agg(&self) -> (u64, usize) {
+        (self.sum, self.size)
+    }
+    fn pend(&self) -> Option<(u64, u64)> {
+        self.pend
+    }
+    fn attach(&mut self, m: &(u64, u64)) {
+        self.val = (self.val + m.0 + m.1 * (self.lsize as u64 % PM)) % PM;
+        self.sum = (self.sum + prog_total(m, self.size)) % PM;
+        self.pend = Some(match self.pend {
+            None => *m,
+            Some(p) => Self::compose(&p, m),
+        });
+    }
+    fn gen_elem(rng: &mut Rng) -> u64 {
+        match rng.below(4) {
+            0 => rng.below(4),
+            _ => rng.below(PM),
+        }
+    }
+    fn gen_mod(rng: &mut Rng) -> (u64, u64) {
+        match rng.below(5) {
+            0 => (rng.below(PM), 0),
+            1 => (0, 1 + rng.below(9)),
+            2 => (rng.below(10), PM - 1),
+            _ => (rng.below(PM), rng.below(PM)),
+        }
+    }
+    fn apply_elem(e: &mut u64, m: &(u64, u64)) {
+        *e = (*e + m.0) % PM;
+    }
+    fn apply_elem_at(e: &mut u64, m: &(u64, u64), idx: usize) {
+        *e = (*e + m.0 + m.1 * (idx as u64 % PM)) % PM;
+    }
+    fn shift(m: &(u64, u64), k: usize) -> (u64, u64) {
+        ((m.0 + m.1 * (k as u64 % PM)) % PM, m.1)
+    }
+    fn apply_agg(a: &(u64, usize), m: &(u64, u64)) -> (u64, usize) {
+        ((a.0 + prog_total(m, a.1)) % PM, a.1)
+    }
+    fn compose(first: &(u64, u64), then: &(u64, u64)) -> (u64, u64) {
+        ((first.0 + then.0) % PM, (first.1 + then.1) % PM)
+    }
+    fn fold(elems: &[u64]) -> (u64, usize) {
+        let mut s = 0u64;
+        for e in elems {
+            s = (s + e) % PM;
+        }
+        (s, elems.len())
+    }
+    fn key(e: &u64) -> u64 {
+        *e
     }
 }
